@@ -64,7 +64,7 @@ impl DimMode {
     }
     pub fn from_name(s: &str) -> Option<DimMode> {
         for dynamic in [false, true] {
-            for n in 1..=3u8 {
+            for n in 1..=8u8 {
                 let d = DimMode { dynamic, n };
                 if d.name() == s {
                     return Some(d);
@@ -349,9 +349,24 @@ pub enum Payload {
     Io,
     /// an error whose `source()` is a `SimFault`
     Nested,
+    /// the user's error is itself a bacon error: `IVPError::UserError(Box<SimFault>)`, as a
+    /// derivative that runs an inner solver and propagates its error with `?` returns
+    InnerIvp,
+    /// a typed error whose `Display` is empty
+    Silent,
+    /// a zero-sized error type (boxing it does not allocate; it cannot carry a tag)
+    Unit,
 }
 
-pub const PAYLOADS: [Payload; 4] = [Payload::Typed, Payload::Text, Payload::Io, Payload::Nested];
+pub const PAYLOADS: [Payload; 7] = [
+    Payload::Typed,
+    Payload::Text,
+    Payload::Io,
+    Payload::Nested,
+    Payload::InnerIvp,
+    Payload::Silent,
+    Payload::Unit,
+];
 
 impl Payload {
     pub fn name(self) -> &'static str {
@@ -360,6 +375,9 @@ impl Payload {
             Payload::Text => "text",
             Payload::Io => "io",
             Payload::Nested => "nested",
+            Payload::InnerIvp => "inner_ivp_error",
+            Payload::Silent => "silent",
+            Payload::Unit => "unit",
         }
     }
     pub fn from_name(s: &str) -> Option<Payload> {
